@@ -9,7 +9,8 @@
         (forall k, o_fail_at o = Some k -> o_writes o <= k -> o_writes o' <= k)
    (chunks are kept most recent first, so `l ++ old` is old followed by l). *)
 From Coq Require Import List NArith.
-From HB Require Import Rt.Render Spec.RenderAll Spec.Writer Proofs.WriterPrefix Proofs.WriterFault.
+From HB Require Import Rt.Render Spec.RenderAll Spec.Writer Proofs.WriterPrefix Proofs.WriterFault
+  Proofs.WriterIo.
 Import ListNotations.
 Open Scope N_scope.
 
@@ -90,3 +91,24 @@ Theorem C19_fault_surfaces : forall reg data ft fuel t root dev k a s1,
                 e_reason e = RIOError.
 Proof. exact fault_surfaces. Qed.
 Print Assumptions C19_fault_surfaces.
+
+(* an IOError is only ever the writer's: every Err outcome of any function of the
+   fixpoint whose reason is IOError ends in a state whose writer has a fault
+   index that its count of accepted calls has reached *)
+Theorem C19_io_error_only_at_fault : forall reg data ft f,
+  every_render_fn reg data ft f
+    (fun A s r => forall e s', r = RErr e s' -> e_reason e = RIOError ->
+                  exists k, o_fail_at (s_out s') = Some k /\ k <= o_writes (s_out s')).
+Proof. exact io_error_only_at_fault. Qed.
+Print Assumptions C19_io_error_only_at_fault.
+
+(* so it needs a failing writer to begin with (with `o_fail_at = None` no
+   IOError can come out), and, entered before the fault, it comes out with
+   exactly k calls accepted: nothing is written after the failure *)
+Theorem C19_io_error_needs_fault : forall reg data ft f,
+  every_render_fn reg data ft f
+    (fun A s r => forall e s', r = RErr e s' -> e_reason e = RIOError ->
+       exists k, o_fail_at (s_out s) = Some k /\
+                 (o_writes (s_out s) <= k -> o_writes (s_out s') = k)).
+Proof. exact io_error_needs_fault. Qed.
+Print Assumptions C19_io_error_needs_fault.
